@@ -213,6 +213,9 @@ def run(ctx):
         ('C01-excl-newline', "fnmatch('a\\n', '!(a)', EXTMATCH) is False (`$` inside the !() look-ahead matches before a final newline)",
          lambda: Fm.fnmatch('a\n', '!(a)', flags=E) is False),
     ])
+    from props import fringe
+    fringe.nonascii_case(ctx)
+    fringe.filter_iterables(ctx)
     return ctx.finish(RULE)
 
 
